@@ -163,6 +163,149 @@ func thoroughImpl(c *Ctx, spec *PropSpec, repo string, extra map[string]interfac
 	extra["sensitivity_suite"] = results
 	extra["sensitivity_detected"] = nDet
 	extra["sensitivity_expected"] = nExp
+
+	// (c) silence suite: the behaviour-preserving diffs kept under <verif>/benign
+	// that touch a file this property's rules looked at are applied to a scratch
+	// copy of the current tree; the property's rules must stay silent on each.
+	files := map[string]bool{}
+	for f := range c.fnsSeen {
+		if p := c.P.Pos(f.Pos()); p != "" && p != "-" {
+			if i := strings.LastIndex(p, ":"); i > 0 {
+				files[p[:i]] = true
+			}
+		}
+	}
+	bents, _ := os.ReadDir(filepath.Join(verifDir, "benign"))
+	type bres struct {
+		Diff    string   `json:"diff"`
+		Outcome string   `json:"outcome"`
+		Rules   []string `json:"alarms,omitempty"`
+	}
+	var todo []string
+	for _, e := range bents {
+		if e.IsDir() || !strings.HasSuffix(e.Name(), ".diff") {
+			continue
+		}
+		b, err := os.ReadFile(filepath.Join(verifDir, "benign", e.Name()))
+		if err != nil {
+			continue
+		}
+		touches := false
+		for _, l := range strings.Split(string(b), "\n") {
+			if strings.HasPrefix(l, "+++ b/") && files[strings.TrimPrefix(l, "+++ b/")] {
+				touches = true
+			}
+		}
+		if touches {
+			todo = append(todo, e.Name())
+		}
+	}
+	sort.Strings(todo)
+	// bounded: at most 12 diffs per property, spread over the sets (A-…, B-…, …)
+	const maxBenign = 12
+	if len(todo) > maxBenign {
+		bySet := map[string][]string{}
+		var sets []string
+		for _, n := range todo {
+			k := n[:1]
+			if len(bySet[k]) == 0 {
+				sets = append(sets, k)
+			}
+			bySet[k] = append(bySet[k], n)
+		}
+		var pick []string
+		for i := 0; len(pick) < maxBenign; i++ {
+			progress := false
+			for _, k := range sets {
+				if i < len(bySet[k]) && len(pick) < maxBenign {
+					pick = append(pick, bySet[k][i])
+					progress = true
+				}
+			}
+			if !progress {
+				break
+			}
+		}
+		extra["silence_skipped_for_time"] = len(todo) - len(pick)
+		todo = pick
+		sort.Strings(todo)
+	}
+	bresults := make([]bres, len(todo))
+	for i, name := range todo {
+		wg.Add(1)
+		go func(i int, name string) {
+			defer wg.Done()
+			sem <- true
+			defer func() { <-sem }()
+			res := bres{Diff: name}
+			tmp, err := os.MkdirTemp("", "zcheck-benign-")
+			if err != nil {
+				res.Outcome = "error: " + err.Error()
+				bresults[i] = res
+				return
+			}
+			defer os.RemoveAll(tmp)
+			tree := filepath.Join(tmp, "tree")
+			out := filepath.Join(tmp, "out")
+			os.MkdirAll(out, 0o755)
+			if b, err := exec.Command("rsync", "-a", "--exclude", ".git", strings.TrimRight(repo, "/")+"/", tree+"/").CombinedOutput(); err != nil {
+				res.Outcome = "error copying tree: " + string(b)
+				bresults[i] = res
+				return
+			}
+			ap := exec.Command("git", "apply", "--whitespace=nowarn", filepath.Join(verifDir, "benign", name))
+			ap.Dir = tree
+			if b, err := ap.CombinedOutput(); err != nil {
+				res.Outcome = "skipped: diff no longer applies to the current tree (" + strings.TrimSpace(firstLine(string(b))) + ")"
+				bresults[i] = res
+				return
+			}
+			if kb, err := os.ReadFile(filepath.Join(verifDir, "known_findings.json")); err == nil {
+				os.WriteFile(filepath.Join(out, "known_findings.json"), kb, 0o644)
+			}
+			if sb, err := os.ReadFile(filepath.Join(verifDir, "symbols.json")); err == nil {
+				os.WriteFile(filepath.Join(out, "symbols.json"), sb, 0o644)
+			}
+			cmd := exec.Command(self, "-p", c.Prop, "-repo", tree, "-verif", out, "-tier", "quick")
+			ob, _ := cmd.CombinedOutput()
+			rules := map[string]bool{}
+			for _, l := range strings.Split(string(ob), "\n") {
+				if strings.HasPrefix(l, "VIOLATION ") && !strings.HasPrefix(l, "VIOLATION property=") || strings.HasPrefix(l, "UNDECIDED ") {
+					f := strings.Fields(l)
+					if len(f) > 1 {
+						rules[f[1]] = true
+					}
+				}
+			}
+			for r := range rules {
+				res.Rules = append(res.Rules, r)
+			}
+			sort.Strings(res.Rules)
+			switch {
+			case len(res.Rules) > 0:
+				res.Outcome = "alarm"
+			case strings.Contains(string(ob), "ERROR:"):
+				res.Outcome = "error: " + firstLine(string(ob))
+			default:
+				res.Outcome = "silent"
+			}
+			bresults[i] = res
+		}(i, name)
+	}
+	wg.Wait()
+	nSilent := 0
+	for _, r := range bresults {
+		fmt.Printf("BENIGN %-32s outcome=%s %v\n", r.Diff, r.Outcome, r.Rules)
+		if r.Outcome == "silent" {
+			nSilent++
+		}
+		if r.Outcome == "alarm" {
+			c.add("thorough", "checker raises an alarm on the behaviour-preserving change "+r.Diff, 0, BROKEN, "the rules of "+c.Prop+" ("+strings.Join(r.Rules, ", ")+") report the behaviour-preserving diff benign/"+r.Diff+" (applied to a scratch copy of the current tree): a false alarm of the checker, not a defect of zenodb")
+		}
+	}
+	extra["silence_suite"] = bresults
+	extra["silence_silent"] = nSilent
+	extra["silence_run"] = len(bresults)
 }
 
 func firstLine(s string) string {
